@@ -334,6 +334,26 @@ def bndOf : Sexp → Option Bnd
   | .list [.atom "excl", .atom v] => (Val.ofCanon v).map .excl
   | _ => none
 
+/-- `scanBatches` keeping the chunk structure (one chunk per non-empty batch): what the
+MergeIterator's child iterators deliver -/
+def scanBatchesC (fc : Nat) (r : Option KeyRange) : List (List (Row × Bool)) → List (List Row)
+  | [] => []
+  | b :: bs =>
+    if b.all (fun x => !x.2) then scanBatchesC fc r bs
+    else
+      match r with
+      | none => liveRows b :: scanBatchesC fc r bs
+      | some rg =>
+        let lo := firstIdx (fun x => lowerOk rg.lo (Row.at x.1 fc)) b
+        let hi := firstIdx (fun x => upperBad rg.hi (Row.at x.1 fc)) b
+        let out := liveRows (sliceRange lo hi b)
+        if hi = 0 then [out] else out :: scanBatchesC fc r bs
+
+def scanRowSetC (rs : RowSet) (cols : List Nat) (r : Option KeyRange) : Out (List (List Row)) :=
+  (startRowid rs r).map fun s =>
+    let tagged := rs.tagged.drop s
+    (scanBatchesC (cols.headD 0) r (splitBatches (cutPoints rs cols) (tagged.length + 1) s tagged)).filter (!·.isEmpty)
+
 /-- storage-level request: `Transaction::scan(cols, filter, sorted)` -/
 def answerScan (t : TableMeta) (lay : List RowSet) (s : Sexp) : String :=
   match s with
@@ -351,8 +371,9 @@ def answerScan (t : TableMeta) (lay : List RowSet) (s : Sexp) : String :=
       let exec : Out (List Row) :=
         if sorted == "true" && lay.length != 1 && !t.primary.isEmpty then
           -- MergeIterator over the per-row-set iterators (each already range filtered)
-          (lay.foldr (fun rs acc => (scanRowSet rs cols r).bind fun a => acc.map fun b => a :: b) (.ok [])).map fun ls =>
-            mergeK (keyCmp (ascKeys t.primary)) (totalLen ls) ls
+          -- the real heap (Model/Heap.lean), child iterators as chunk lists: tie order included
+          (collectOut (lay.map fun rs => scanRowSetC rs cols r)).map fun streams =>
+            mergeHeap (keyCmp (ascKeys t.primary)) streams
         else scanTable lay cols r
       let full := concatScan lay
       let fc := cols.headD 0
